@@ -1,6 +1,6 @@
 (* C13 — alternative spellings of a model are the same model. *)
 From Coq Require Import List NArith Bool String.
-From YV Require Import Model.Binary Gen.Tables Proofs.SpellingProofs.
+From YV Require Import Model.Binary Gen.Tables Proofs.SpellingProofs Model.TypeSyntax Proofs.TypeSyntaxProofs.
 Import ListNotations.
 
 (* the alias table of the CURRENT sources (types.go:primitiveTypes, regenerated on every run): alias names
@@ -8,3 +8,17 @@ Import ListNotations.
 Theorem C13_alias_names_unambiguous : NoDup (map fst prim_aliases ++ prim_names).
 Proof. exact alias_names_unambiguous. Qed.
 Print Assumptions C13_alias_names_unambiguous.
+
+(* the expanded spelling of every type expression (any nesting of name<args>, ?, *n, [dims], ->) is given the same type
+   as its short spelling by the front end (Model.TypeSyntax: convertType / applyTypeTail / itemCases and Unmarshal*YAML,
+   compared with the real front end through the verif hook on every run) *)
+Theorem C13_expanded_spelling_same_type : forall s, conv_expanded (expand s) = conv_short s.
+Proof. exact expanded_spelling_same_type. Qed.
+Print Assumptions C13_expanded_spelling_same_type.
+
+(* an optional inside a container is the container's cases in both spellings *)
+Theorem C13_example :
+  conv_short (SVecT None (SOptT (SName [105] []))) = GGen [None; Some (GSimple [105] [])] (DVec None) None
+  /\ conv_short (SOptT (SOptT (SName [105] []))) = GGen [None; Some (GGen [None; Some (GSimple [105] [])] DNone None)] DNone None.
+Proof. split; reflexivity. Qed.
+Print Assumptions C13_example.
